@@ -124,6 +124,7 @@ fn explore(ctx: &Ctx) -> Outcome {
     let mut mb = binfam::multibyte_alignment();
     mb.extend(binfam::kana_family());
     mb.extend(binfam::tricky_family());
+    mb.extend(binfam::echo_family());
     mb.extend(binfam::collation_family());
     mb.extend(binfam::many_labels_family());
     mb.extend(binfam::pair_family());
